@@ -4,6 +4,9 @@
 STD_SPECS = ["s01_u8_checked_shl", "s02_usize_leading_zeros", "s03_result_unwrap_or", "s04_u32_from_bool",
              "s05_i32_try_from_u32", "s06_usize_try_from", "s07_usize_div_ceil_8"]
 
+POLICY_ROOT_FNS = ['serialize::unsatisfiable', 'serialize::trivial', 'serialize::key', 'serialize::after', 'serialize::older', 'serialize::compute_sha256', 'serialize::verify_bexp', 'serialize::sha256', 'serialize::and', 'serialize::selector', 'serialize::or', 'serialize::thresh_summand', 'serialize::thresh_add', 'serialize::thresh_verify', 'serialize::threshold', 'Policy::serialize_no_witness', 'Policy::cmr', 'Policy::commit', 'Hiding::as_node', 'Hiding::get_node', 'satisfy::ok_if', 'Policy::satisfy_internal', 'Policy::satisfy', 'pcmr', 'psum', 'lemma_psum_frag_sum', 'lemma_frag_sum_ext', 'lemma_rooted_instances', 'frag_sum']
+POLICY_SHAPE_PINS = ['serialize::unsatisfiable', 'serialize::trivial', 'serialize::key', 'serialize::after', 'serialize::older', 'serialize::compute_sha256', 'serialize::verify_bexp', 'serialize::sha256', 'serialize::and', 'serialize::selector', 'serialize::or', 'serialize::thresh_summand', 'serialize::thresh_add', 'serialize::thresh_verify', 'serialize::threshold']
+
 PROPS = {
     "C13": {
         "units": ["bitstream"],
@@ -229,41 +232,67 @@ PROPS = {
                       "numbers items consecutively, reports a child index exactly for the children that exist, each index being smaller than the item's own and "
                       "pointing at the place where that child (its sharing class) was yielded, and yields a sharing class only if it was not yielded before. "
                       "Also: the provided left_child/right_child, IterStackItem helpers, NoSharing, SwapChildren::as_dag_node + PostOrderIterItem::unswap "
-                      "(right-to-left = mirror image), PreOrderIter::next (parent first, once per class, skipped entries already yielded).",
+                      "(right-to-left = mirror image), PreOrderIter::next (parent first, once per class, skipped entries already yielded). The number of items yielded "
+                      "never exceeds the size of the tree unfolding of the root (potential `rem`), so with at most usize::MAX tree nodes the index cannot overflow. "
+                      "COMPLETENESS: the invariant also carries that every item yielded had its children (their classes) yielded earlier and that an exhausted iterator has yielded "
+                      "the root; theorem_post_order_complete: for every path of child edges from the root, every node on it has been yielded (itself or a node of its class) once next "
+                      "returns None - given that sharing classes are congruences (stated hypothesis `cong`). "
+                      "is_shared_as: the verdict is the pointwise address comparison of the traces of the two iterators it creates (InternalSharing over a clone "
+                      "of the root, the requested tracker over the root), true only when one trace is exhausted; the zip loop terminates.",
         "level_note": "Assumed (R5): the contracts of the two traits — DagLike (as_dag_node is a pure function of the node; the DAG is finite/acyclic) and "
                       "SharingTracker (a table from sharing class to first index). NoSharing, InternalSharing and MaxSharing (for &Node) ARE proved to meet it "
-                      "(the entry-API match is rewritten to get/insert, R10; vstd's HashMap model; key-model axioms for PointerId / SharingId); EncodeSharing and the Arc/SwapChildren "
-                      "variants of MaxSharing are not. A ghost history field is added to PostOrderIter. Not decided: completeness (every reachable class is eventually "
-                      "yielded), set equality of pre-order and post-order, is_shared_as, VerbosePreOrderIter.",
+                      "(the entry-API match is rewritten to get/insert, R10; vstd's HashMap model; key-model axioms for PointerId / SharingId / EncodeId), as is EncodeSharing; the Arc/SwapChildren "
+                      "variants of MaxSharing are not. Ghost fields `hist` (trace) and `root` are added to PostOrderIter. `for (a, b) in x.zip(y)` is rewritten to the definition of Zip::next (R10). "
+                      "Not decided: set equality of pre-order and post-order, that equal traces in is_shared_as "
+                      "mean equal sharing partitions, VerbosePreOrderIter.",
         "assumptions": [
             "DagLike implementors: as_dag_node deterministic; finite acyclic DAG (rank)",
             "SharingTracker implementors obey the class-table contract (proved for NoSharing, InternalSharing, MaxSharing<&Node>)",
             "Hash/Eq of PointerId and of N::SharingId obey vstd's key model; PointerId::from is a function of the node reference",
-            "fewer than 2^64 nodes yielded",
+            "the tree unfolding of the DAG has at most usize::MAX nodes (precondition of next / is_shared_as)",
+            "Clone of a DagLike handle: only call_ensures(D::clone) is known about the clone is_shared_as iterates over",
         ],
-        "not_decided": ["completeness of the iteration", "pre-order/post-order set equality", "is_shared_as", "the HashMap trackers' bodies"],
+        "not_decided": ["pre-order/post-order set equality", "is_shared_as: equal traces <=> equal sharing partitions", "that a given tracker's classes are congruences (hypothesis of the completeness theorem)"],
         "explanation": "",
     },
     "C16": {
-        "units": ["policy"],
+        "units": ["policy", "cmr"],
+        "parallel_units": True,
+        # ALL obligations of unit cmr count: the policy-root contracts are proved against the construction-trait laws, so
+        # the implementations of those laws (nodes, bare roots, the hiding wrapper - C09) carry C16's first sentence too
+        "pin_functions": {"cmr": POLICY_SHAPE_PINS},
         "kani": {"quick": [], "thorough": []},
-        "native_cex": "c16_policy_sort_replay",
-        "native_thorough": "c16_policy_sort_replay",
-        "native_fallback": "c16_policy_sort_replay",
+        # the parts of satisfaction no contract speaks about (which children are selected, lock-time comparisons): a change
+        # makes the run undecided and the bounded enumeration decides
+        "watch": [("src/policy/satisfy.rs", "impl[=impl<Pk: ToXOnlyPubkey> Policy<Pk>] / fn:satisfy_internal", "ab1c0e72921161bb"),
+                  ("src/policy/satisfy.rs", "impl[impl<'brand, Pk: ToXOnlyPubkey> Satisfier<'brand, Pk>\n    for (&types::Context<'brand>, elements::Sequence)] / fn:check_older", "cc9a17d536259daa"),
+                  ("src/policy/satisfy.rs", "impl[impl<'brand, Pk: ToXOnlyPubkey> Satisfier<'brand, Pk>\n    for (&types::Context<'brand>, elements::LockTime)] / fn:check_after", "ba3c1cda3126f759")],
+        "native_cex": {"Policy::sort": "c16_policy_sort_replay", "Policy::sorted": "c16_policy_sort_replay", "*": "c16_policy_roots_replay"},
+        "native_thorough": ["c16_policy_sort_replay", "c16_policy_roots_replay"],
+        "native_fallback": ["c16_policy_sort_replay", "c16_policy_roots_replay"],
         "level": "proof",
-        "level_text": "Deductive proof (Verus) on the real Policy::sort / Policy::sorted (recursive, through Arc::make_mut and the Vec of threshold children): "
+        "level_text": "Deductive proof (Verus), two parts. (1) FIRST sentence - roots: the real generic fragment builders of src/policy/serialize.rs (15 functions), "
+                      "Policy::serialize_no_witness, Policy::cmr, Policy::commit, Policy::satisfy_internal and Policy::satisfy, over the construction-trait laws that unit `cmr` "
+                      "proves for nodes, bare roots and the hiding wrapper (C09): for EVERY policy (recursion through Arc and Vec, thresholds of any length) the root computed directly, "
+                      "the root of the compiled program and the root of whatever satisfy_internal builds - for any answers of the satisfier, any choice of branches - are one and the same "
+                      "function pcmr(policy); satisfy returns a program with that root. (2) LAST sentence - Policy::sort / Policy::sorted: "
                       "the result is canonical at EVERY depth (and/or children ordered, threshold children sorted, recursively) and an already canonical policy is "
-                      "returned unchanged (idempotence). Only the LAST sentence of C16 (canonical sorting) is addressed, and of it not the confluence clause.",
+                      "returned unchanged (idempotence); not the confluence clause. The SECOND sentence (satisfaction succeeds exactly when the answers make the policy true; the program runs) "
+                      "is not decided deductively: bounded native enumeration c16_policy_roots_replay (thorough tier / fallback), labelled bounded.",
         "level_note": "Assumed (R8): the derived Ord on Policy is a total preorder (`ple`); slice::sort returns a sorted permutation and leaves a sorted input unchanged; "
                       "Arc::make_mut gives write access to the Arc's content; `for sub in &mut *subs` is rewritten to an index loop (R10); the or-pattern arm is duplicated (R18); "
                       "Vec values with equal contents are equal. NOT decided: that two policies differing only by reordering of children sort to the SAME policy (uniqueness of "
-                      "the canonical form); every clause about commitment roots, compilation, satisfaction and execution (needs typed programs, hashing, signatures).",
+                      "the canonical form); whether satisfaction succeeds exactly when the policy is true and whether the returned program executes (typed programs, signatures, the Bit Machine) - "
+                      "bounded enumeration only. Roots part: R8 stand-ins for the Elements jets (by name), Word constructors, keys/hashes, the satisfier trait (R5), costs and the cheapest-k selection; "
+                      "`iter().map(..).collect()` and `for .. in a[1..].iter().zip(b[1..].iter())` are rewritten to index loops (R10); `Context::with_context(|ctx| ..)` to a fresh context.",
         "assumptions": [
+            "roots: hashing uninterpreted (as C09); `.expect(\"consistent types\")` and the other panics are not proved absent (partial correctness); finalize_types / finalize_unpruned / prune keep the root (Node::convert: census + watch in unit cmr); "
+            "the satisfier's answers, signature/preimage values, costs and the choice of the k cheapest children are opaque (they cannot enter a root); the fragments' combinator shapes are pinned (a changed shape makes the run undecided, not a violation)",
             "derive(Ord) on Policy is a total preorder",
             "Vec::sort yields a sorted permutation and is the identity on sorted input",
             "Arc::make_mut(a) is a mutable reference to a's content",
         ],
-        "not_decided": ["confluence: reordered policies have the same sorted form", "cmr/commit/satisfy/compile clauses of C16"],
+        "not_decided": ["confluence: reordered policies have the same sorted form", "second sentence of C16 (satisfaction iff true, returned program runs): bounded enumeration only"],
         "explanation": "",
     },
     "C14": {
@@ -361,6 +390,7 @@ PROPS = {
     },
     "C09": {
         "units": ["cmr"],
+        "exclude_functions": {"cmr": POLICY_ROOT_FNS + ["Policy"]},
         "native_cex": "c09_cmr_replay",
         "native_thorough": "c09_cmr_replay",
         "native_fallback": "c09_cmr_replay",
